@@ -289,6 +289,12 @@ func (hrw *httpReadWriter) Write(ctx context.Context, rpc *Rpc) error {
 
 	resp.Body.Close()
 
+	if resp.StatusCode != http.StatusOK {
+		// The far end did not take the envelope (malformed, no reader in time,
+		// connection gone there): do not report it as written.
+		return errors.New("HttpRpcReadWriter: write refused: " + resp.Status)
+	}
+
 	return nil
 }
 
